@@ -105,7 +105,7 @@ func checkC17(c *Ctx) {
 		if _, isB := cc.Value.(*ssa.Builtin); isB {
 			return
 		}
-		if sig, ok := cc.Value.Type().Underlying().(*types.Signature); ok && sig.Params().Len() == 2 {
+		if sig, ok := cc.Value.Type().Underlying().(*types.Signature); ok && (sig.Params().Len() == 2 || sig.Params().Len() == 3) {
 			handleCall = in
 		}
 	})
@@ -173,8 +173,83 @@ func checkC17(c *Ctx) {
 			}
 		})
 	}
+	// table form: handlers in a package-level array indexed by the message type
+	if len(arms) == 0 {
+		var tableIA *ssa.IndexAddr
+		var tableG *ssa.Global
+		for _, sf := range p.FuncsIn(hrPkg) {
+			if p.isTestFn(sf) {
+				continue
+			}
+			eachInstr(sf, func(_ *ssa.BasicBlock, _ int, in ssa.Instruction) {
+				ia, ok := in.(*ssa.IndexAddr)
+				if !ok || sf.Name() == "init" {
+					return
+				}
+				g, ok := ia.X.(*ssa.Global)
+				if !ok {
+					return
+				}
+				at, ok := deref(g.Type()).Underlying().(*types.Array)
+				if !ok {
+					return
+				}
+				if _, isSig := at.Elem().Underlying().(*types.Signature); !isSig {
+					return
+				}
+				if types.TypeString(stripNoopConv(ia.Index).Type(), nil) == modPath+"/"+hrPkg+".messageType" || types.TypeString(stripConv(ia.Index).Type(), nil) == modPath+"/"+hrPkg+".messageType" {
+					tableIA, tableG = ia, g
+				}
+			})
+		}
+		if tableIA != nil {
+			// entries from the package initialiser
+			for _, sf := range p.FuncsIn(hrPkg) {
+				if sf.Name() != "init" {
+					continue
+				}
+				eachInstr(sf, func(_ *ssa.BasicBlock, _ int, in ssa.Instruction) {
+					st, ok := in.(*ssa.Store)
+					if !ok {
+						return
+					}
+					ia, ok := st.Addr.(*ssa.IndexAddr)
+					if !ok || ia.X != ssa.Value(tableG) {
+						return
+					}
+					k, isC := constInt(ia.Index)
+					if !isC {
+						return
+					}
+					if fn := boundTarget(st.Val); fn != nil {
+						arms = append(arms, arm{k, fn})
+					}
+				})
+			}
+			// the index must be inside the table: a frame type is one byte chosen by the peer
+			fnOf := tableIA.Parent()
+			bc := newBoundsCtx(p, fnOf)
+			okIdx, w := bc.proveIndex(tableIA, tableIA.X, tableIA.Index)
+			c.Check(okIdx, "R1", "handler table index within the table", tableIA.Pos(), w, "the handler table is indexed with the frame's type byte without a witness that it is inside the table ("+w+"): a frame whose type is past the last request crashes the old process instead of being answered with the unknown reply")
+			// the default: a function value in the dispatching function that is not a table entry
+			eachInstr(fnOf, func(_ *ssa.BasicBlock, _ int, in ssa.Instruction) {
+				ph, ok := in.(*ssa.Phi)
+				if !ok {
+					return
+				}
+				if _, isSig := ph.Type().Underlying().(*types.Signature); !isSig {
+					return
+				}
+				for _, e := range ph.Edges {
+					if fn := boundTarget(e); fn != nil {
+						defaultFn = fn
+					}
+				}
+			})
+		}
+	}
 	if handleCall == nil || len(arms) == 0 {
-		c.Undecided("R1", "request switch", hc.Pos(), "cannot recover the request switch (handler chosen by a switch on the message type and called through a variable)")
+		c.Undecided("R1", "request switch", hc.Pos(), "cannot recover the request dispatch (a switch on the message type, or a handler table indexed by it, called through a variable)")
 	}
 	replyConstOf := func(fn *ssa.Function) (int64, ssa.Instruction, bool) {
 		var val int64
@@ -593,6 +668,8 @@ func checkC17(c *Ctx) {
 	checkChildDeparture(c, "R7")
 	c.Rule("R8", "every requested step resolves to a declared method of the instance (not to a promotion wrapper that re-enters the same interface call)")
 	checkStepsHaveActions(c, "R8")
+	c.Rule("R9", "the frame reader accepts every type byte (unknown requests reach the dispatcher and get the unknown reply)")
+	checkReaderTypeAgnostic(c, "R9")
 }
 
 // checkDrainLatch (C17.R6, C09.R4): the close of the drain latch in listener.Drain is not control-dependent on the
@@ -823,4 +900,90 @@ func checkStepsHaveActions(c *Ctx, rule string) {
 	if n == 0 {
 		c.Unresolved(rule, "no call on hotrestart.Instance")
 	}
+}
+
+// checkReaderTypeAgnostic (C17.R9): "unknown requests are answered with the unknown reply" and "every frame
+// round-trips (type, length, payload)" both need the frame reader to accept every type byte: rejecting a frame because
+// of its type turns an unknown request into a read error, which the child loop skips without any reply - the child
+// waits for ever. No error return of the reader may be control-dependent on the type byte.
+func checkReaderTypeAgnostic(c *Ctx, rule string) {
+	p := c.P
+	read := p.Func(hrPkg, "readMessage")
+	if read == nil {
+		c.Unresolved(rule, "hotrestart.readMessage")
+		return
+	}
+	// values derived from byte 0 of the buffer / the Type field
+	var isTypeByte func(v ssa.Value) bool
+	seenTB := map[ssa.Value]bool{}
+	isTypeByte = func(v ssa.Value) bool {
+		if v == nil || seenTB[v] {
+			return false
+		}
+		seenTB[v] = true
+		switch x := v.(type) {
+		case *ssa.Convert:
+			return isTypeByte(x.X)
+		case *ssa.ChangeType:
+			return isTypeByte(x.X)
+		case *ssa.BinOp:
+			return isTypeByte(x.X) || isTypeByte(x.Y)
+		case *ssa.Phi:
+			for _, e := range x.Edges {
+				if isTypeByte(e) {
+					return true
+				}
+			}
+		case *ssa.UnOp:
+			if x.Op == token.NOT {
+				return isTypeByte(x.X)
+			}
+			if x.Op == token.MUL {
+				if ia, ok := x.X.(*ssa.IndexAddr); ok && isByteSliceVal(ia.X) {
+					if k, isC := constInt(ia.Index); isC && k == 0 {
+						return true
+					}
+				}
+				if f, _ := fieldAddr(x.X); f != nil && f.Name() == "Type" {
+					return true
+				}
+			}
+		case *ssa.Call:
+			if g := calleeFn(x.Common()); g != nil && isModFn(g) {
+				for _, a := range x.Call.Args {
+					if isTypeByte(a) {
+						return true
+					}
+				}
+			}
+		}
+		return false
+	}
+	bad := token.NoPos
+	n := 0
+	eachInstr(read, func(b *ssa.BasicBlock, _ int, in ssa.Instruction) {
+		iff, ok := in.(*ssa.If)
+		if !ok {
+			return
+		}
+		n++
+		// does one side lead only to an error return?
+		rejects := false
+		for _, s := range b.Succs {
+			if len(s.Preds) != 1 {
+				continue
+			}
+			if ret, ok := s.Instrs[len(s.Instrs)-1].(*ssa.Return); ok && len(ret.Results) == 2 && !isNilConst(ret.Results[1]) {
+				rejects = true
+			}
+		}
+		if !rejects {
+			return
+		}
+		seenTB = map[ssa.Value]bool{}
+		if isTypeByte(iff.Cond) {
+			bad = iff.Cond.Pos()
+		}
+	})
+	c.Check(bad == token.NoPos, rule, "the frame reader rejects no frame because of its type", bad, fmt.Sprintf("%d branches examined, no error return depends on the type byte", n), "the frame reader returns an error depending on the type byte: a well-formed frame of an undefined type (a newer child's request) never reaches the dispatcher, the child loop skips it without the unknown reply and the child waits for ever")
 }
